@@ -209,10 +209,21 @@ fn run_case(config: &str, ops: &str, conns: &str) -> String {
         let counter = Arc::new(Mutex::new(0usize));
         {
             let (scripts, log, counter) = (scripts.clone(), log.clone(), counter.clone());
+            let attempts = Arc::new(Mutex::new(0usize));
             install_connector(Box::new(move |_addr| -> ConnectFuture {
                 let next = scripts.lock().unwrap().pop_front();
                 let (log, counter) = (log.clone(), counter.clone());
+                let attempts = {
+                    let mut a = attempts.lock().unwrap();
+                    *a += 1;
+                    *a
+                };
                 Box::pin(async move {
+                    if attempts > 5000 {
+                        // a client that reconnects without end and without letting (virtual) time pass would spin for ever:
+                        // let two days pass instead, so that the per-operation limit reports it as a hang
+                        tokio::time::sleep(Duration::from_secs(2 * 86_400)).await;
+                    }
                     match next {
                         None => {
                             log.lock().unwrap().push(format!("X@{}", now_ms(start)));
